@@ -158,6 +158,9 @@ EXTRA = [
     "char *long_run = " + " ".join(['\"' + "b" * 300 + '\"'] * 20) + ";",
     "#pragma " + "p" * 5000 + "\nint after_long_pragma;",
     # round 7
+    "struct P { int x, y; } p = { .x = 1, .y = 2 };",
+    "struct Q { int a[2]; struct { int b; } n[2]; } q = { .a[1] = 2, .n[1].b = 3 };",
+    "int v = ((struct P){ .y = 4 }).y;",
     "typedef int T; typedef int U; struct S { struct { int m; int T; } U[2], a; }; unsigned long z = offsetof(struct S, U[1].T) + offsetof(struct S, a.T);",
     "struct P { int a, b; }; void f(int x){ struct P p = { .a = (x++, x), 7 }; int v[3] = { [1] = (x, 2), 3 }; p = (struct P){ .b = (1, 2) }; }",
     "_Alignas(4) _Alignas(16) char c16; struct A { _Alignas(2) _Alignas(8) char m; } sa;",
